@@ -454,7 +454,6 @@ fn send_tx(out: &mut Out, rng: &mut Rng, st: &Sync) {
         4 => { let i = rng.below(bytes.len() as u64) as usize; bytes[i] ^= 1 << rng.below(8); }
         _ => { let n = rng.range(0, 60) as usize; bytes = rng.bytes(n); }
     }
-    let exact = bitcoin::consensus::deserialize::<bitcoin::Transaction>(&bytes).is_ok();
     let fees = can::with_state(|s| s.fees.clone());
     let amount = fees.send_transaction_base + fees.send_transaction_per_byte * bytes.len() as u128;
     let avail = if rng.chance(1, 5) { amount.saturating_sub(1) } else { amount + rng.range(0, 1000) as u128 };
@@ -485,7 +484,7 @@ fn send_tx(out: &mut Out, rng: &mut Rng, st: &Sync) {
     can::verif_hooks::reset_cycles_balance();
     out.count(&format!("sendtx:kind{}:{}", kind, result.split(' ').next().unwrap()));
     out.emit(
-        &format!("c sendtx {} {} {} wellformed={}", c::net_name(req_net), avail, bytes.len(), exact as u8),
+        &format!("c sendtx {} {} {}", c::net_name(req_net), avail, if bytes.is_empty() { "-".to_string() } else { hex::encode(&bytes) }),
         &format!("{} accepted={} counted={} forwarded={}", result, accepted, if result.starts_with("trap") { 0 } else { counted }, if result.starts_with("trap") { "none".to_string() } else { forwarded }),
     );
 }
